@@ -50,6 +50,7 @@ pub fn scenario(r: &mut Report, p: &Params) {
     let total = p.servers + p.clients;
     let big = total > 20;
     let mut prev_tables: HashMap<SocketAddrV4, (u64, HashSet<SocketAddrV4>)> = HashMap::new();
+    let mut prev_signed: HashMap<SocketAddrV4, (u64, HashSet<SocketAddrV4>)> = HashMap::new();
     let mut slots: Vec<Slot> = vec![];
     let mut boot = SocketAddrV4::new(Ipv4Addr::UNSPECIFIED, 0);
     for i in 0..total {
@@ -95,7 +96,7 @@ pub fn scenario(r: &mut Report, p: &Params) {
     let mut counters = (0u64, 0u64, 0u64, 0u64, 0u64, 0u64); // ping requests, refresh find_nodes, evictions seen, relearned, samples
     let mut restart_pending: Vec<(u64, usize)> = vec![];
     let mut last_refresh: HashMap<SocketAddrV4, u64> = HashMap::new();
-    let mut recent_checks = (0u64, 0u64); // (x, peer) pairs demanded present: small networks, big networks
+    let mut recent_checks = (0u64, 0u64, 0u64); // (x, peer) pairs demanded present: small networks, big networks
     let mut next_sample = t0 + 30 * SEC;
     let mut violations_here = 0;
     while w.now() < end && violations_here < 3 {
@@ -285,6 +286,40 @@ pub fn scenario(r: &mut Report, p: &Params) {
                 slots[*i].empty_since = None;
             }
         }
+        // (a') the second routing table (nodes that support signed peers), every fourth sample of the networks with
+        // full buckets: an entry that was there at the previous such sample and whose node has answered this node
+        // within the last 14 minutes was heard from less than 15 minutes ago and cannot be the stale head of its
+        // bucket - it must still be there, whatever the first table did with that node
+        if big && counters.4 % 4 == 0 {
+            for i in live.iter() {
+                let x = slots[*i].addr;
+                let Some(snap) = snapshot(&w, slots[*i].node.as_ref().expect("live")) else { continue };
+                let now_set: HashSet<SocketAddrV4> = snap.signed_table.nodes.iter().map(|n| n.1).collect();
+                if let Some((t_prev, prev)) = prev_signed.get(&x) {
+                    if *t_prev >= slots[*i].started_at {
+                        for p_addr in prev.iter() {
+                            let steady = slots.iter().find(|s| s.addr == *p_addr).map(|s| s.restarted_at.is_none() && s.node.is_some()).unwrap_or(false);
+                            let answered = last_answer.get(&(x, *p_addr)).copied().unwrap_or(0);
+                            if steady && answered > 0 && answered >= slots[*i].started_at && s_now - answered <= 14 * MIN {
+                                recent_checks.2 += 1;
+                                if !now_set.contains(p_addr) {
+                                    r.violation("health/recent-answerer-missing/signed-peers-table", "a live peer that was in the signed-peers routing table two minutes ago and has answered a request of this node within the last 14 minutes is no longer in it", case.clone(), json!({"node": x.to_string(), "peer": p_addr.to_string(), "answered_ago_s": (s_now - answered) / SEC, "signed_table_size": now_set.len()}));
+                                    violations_here += 1;
+                                    break;
+                                }
+                            }
+                        }
+                    }
+                }
+                if std::env::var("MLV_DEBUG").is_ok() && *i < 3 {
+                    let main_set: HashSet<SocketAddrV4> = snap.table.nodes.iter().map(|n| n.1).collect();
+                    let only_signed = now_set.iter().filter(|a| !main_set.contains(a)).count();
+                    let oldest = snap.signed_table.nodes.iter().map(|n| n.2.as_secs()).max().unwrap_or(0);
+                    eprintln!("t={}min node {} main={} signed={} signed-only={} oldest signed entry {} s", (s_now - t0) / MIN, x, main_set.len(), now_set.len(), only_signed, oldest);
+                }
+                prev_signed.insert(x, (s_now, now_set));
+            }
+        }
         // (c) restarted peers are re-learned under their new id, the old id disappears
         for si in 0..slots.len() {
             let (Some(tr0), Some(old_id)) = (slots[si].restarted_at, slots[si].id_before_restart) else { continue };
@@ -352,6 +387,7 @@ pub fn scenario(r: &mut Report, p: &Params) {
     r.add("signed_table_dead_peer_checks", counters.5);
     r.add("recent_answerer_present_checks", recent_checks.0);
     r.add("recent_answerer_present_checks_full_buckets", recent_checks.1);
+    r.add("recent_answerer_present_checks_signed_table", recent_checks.2);
     if big {
         r.count("big_timelines");
     }
@@ -498,6 +534,165 @@ pub fn late_bootstrap_scenario(r: &mut Report, seed: u64) {
     }
 }
 
+/// Mixed versions with a full bucket: the node lives among scripted peers that all answer everything.
+/// Twenty-odd of them speak an older version (no signed peers) and fill the furthest bucket of the basic
+/// table; then a handful of peers that do support signed peers appear in the same bucket. The basic table
+/// has no room for them - correctly - but the signed-peers table, which only ever holds such peers, does:
+/// every one of them that has answered this node must be in it and must stay in it for as long as it
+/// keeps answering.
+pub fn mixed_versions_scenario(r: &mut Report, seed: u64) {
+    use crate::bencode::B;
+    use crate::krpc::*;
+    use std::cell::RefCell;
+    use std::rc::Rc;
+    r.eval();
+    let mut rng = Rng::new(seed);
+    let w = World::with_cfg(seed, NetCfg::default(), TraceLevel::Off);
+    let case = json!({"class":"mixed-versions","seed":seed.to_string()});
+    let n_old = 22 + rng.usize(10);
+    let n_new = 2 + rng.usize(10);
+    let old_version: Option<[u8; 4]> = *rng.pick(&[None, Some(*b"LT\x01\x02"), Some([82, 83, 0, 5]), Some(*b"UT\x00\x00")]);
+    struct Peer {
+        id: [u8; 20],
+        addr: SocketAddrV4,
+        new: bool,
+        listed: bool,
+        first_answer: Option<u64>,
+        answers: u64,
+    }
+    let boot_addr = SocketAddrV4::new(Ipv4Addr::new(10, 79, 1, 1), 6881);
+    let x = w.spawn(NodeSpec::server(Ipv4Addr::new(10, 79, 0, 2), &[boot_addr])).expect("x");
+    let xid = w.block_on(x.adht.info(), 3 * SEC).map(|i| *i.id().as_bytes()).unwrap_or([0; 20]);
+    let peers: Rc<RefCell<Vec<Peer>>> = Rc::new(RefCell::new(vec![]));
+    let mut socks = HashMap::new();
+    for i in 0..n_old + n_new {
+        let mut id = [0u8; 20];
+        for b in id.iter_mut() {
+            *b = rng.u64() as u8;
+        }
+        // the furthest bucket of x: first bit differs
+        id[0] = (id[0] & 0x7f) | (!xid[0] & 0x80);
+        let addr = SocketAddrV4::new(Ipv4Addr::new(10, 79, 1 + (i / 200) as u8, 1 + (i % 200) as u8), 6881);
+        socks.insert(w.raw(addr), i);
+        peers.borrow_mut().push(Peer { id, addr, new: i >= n_old, listed: i < n_old, first_answer: None, answers: 0 });
+    }
+    let p2 = peers.clone();
+    let xaddr = x.addr;
+    let mut rr = Rng::new(mix(seed, 77));
+    w.set_responder(Some(Box::new(move |w, sock, d| {
+        let Some(&i) = socks.get(&sock) else { return false };
+        let Some(q) = Krpc::parse(&d.bytes) else { return true };
+        if q.y != b'q' {
+            return true;
+        }
+        let mut ps = p2.borrow_mut();
+        let mut rd = vec![("id", B::bytes(&ps[i].id))];
+        if q.target().is_some() {
+            let listed: Vec<usize> = (0..ps.len()).filter(|j| ps[*j].listed && *j != i).collect();
+            let mut pick = vec![];
+            for _ in 0..8 {
+                let j = listed[rr.usize(listed.len())];
+                if !pick.contains(&j) {
+                    pick.push(j);
+                }
+            }
+            let nodes: Vec<([u8; 20], SocketAddrV4)> = pick.iter().map(|j| (ps[*j].id, ps[*j].addr)).collect();
+            rd.push(("nodes", B::Bytes(nodes_bytes(&nodes))));
+            if q.q.as_deref() != Some("find_node") {
+                rd.push(("token", B::bytes(b"tokn")));
+            }
+        }
+        let v: Option<[u8; 4]> = if ps[i].new { Some(VERSION_RS6) } else { old_version };
+        w.raw_send(sock, &response(&q.t, B::dict(rd), None, v.as_ref().map(|v| &v[..])).encode(), d.from);
+        if d.from == xaddr {
+            ps[i].answers += 1;
+            if ps[i].first_answer.is_none() {
+                ps[i].first_answer = Some(w.now());
+            }
+        }
+        true
+    })));
+    let t0 = w.now();
+    w.block_on(x.adht.bootstrapped(), 60 * SEC);
+    // let the old-version peers fill the bucket
+    let mut full_at = None;
+    for k in 0..20u64 {
+        let a = x.adht.clone();
+        let t = Id::random();
+        w.block_on(async move { drop(a.find_node(t).await) }, 30 * SEC);
+        w.run_for(5 * SEC);
+        if let Some(snap) = snapshot(&w, &x) {
+            if snap.table.nodes.len() >= 20 {
+                full_at = Some(k);
+                break;
+            }
+        }
+    }
+    // the peers that support signed peers appear
+    let t_join = w.now();
+    for p in peers.borrow_mut().iter_mut() {
+        p.listed = true;
+    }
+    let total = 25 * MIN + rng.below(25 * MIN);
+    let mut samples = 0u64;
+    let mut checks = 0u64;
+    let mut not_in_basic = 0u64;
+    let mut failed = false;
+    while w.now() < t_join + total && !failed {
+        w.run_for(rng.range(20, 150) * SEC);
+        if rng.usize(3) == 0 {
+            let a = x.adht.clone();
+            let t = Id::random();
+            match rng.usize(3) {
+                0 => w.block_on(async move { drop(a.find_node(t).await) }, 30 * SEC),
+                1 => w.block_on(async move { drop(a.get_closest_nodes(t).await) }, 30 * SEC),
+                _ => w.block_on(async move { drop(a.get_immutable(t).await) }, 30 * SEC),
+            };
+        }
+        let Some(snap) = snapshot(&w, &x) else { continue };
+        samples += 1;
+        let basic: HashSet<SocketAddrV4> = snap.table.nodes.iter().map(|n| n.1).collect();
+        let signed: HashSet<SocketAddrV4> = snap.signed_table.nodes.iter().map(|n| n.1).collect();
+        let now = w.now();
+        for p in peers.borrow().iter().filter(|p| p.new) {
+            // answered at least a second ago (the answer has certainly been handled)
+            let Some(t_first) = p.first_answer else { continue };
+            if now < t_first + SEC {
+                continue;
+            }
+            checks += 1;
+            if !basic.contains(&p.addr) {
+                not_in_basic += 1;
+            }
+            if !signed.contains(&p.addr) {
+                failed = true;
+                r.violation(
+                    "health/answering-peer-missing/signed-peers-table-has-room",
+                    "a peer that supports signed peers and answers every request of this node is not in the node's signed-peers routing table although that table holds fewer than twenty nodes",
+                    case.clone(),
+                    json!({"peer": p.addr.to_string(), "answers_so_far": p.answers, "first_answered_ago_s": (now - t_first) / SEC, "signed_table_size": signed.len(), "basic_table_size": basic.len(), "in_basic_table": basic.contains(&p.addr), "old_peers": n_old, "new_peers": n_new, "since_start_min": (now - t0) / MIN}),
+                );
+                break;
+            }
+        }
+    }
+    r.count("mixed_version_scenarios");
+    r.add("mixed_version/samples", samples);
+    r.add("mixed_version/answering_signed_capable_peer_in_signed_table_checks", checks);
+    r.add("mixed_version/checks_with_peer_refused_by_full_basic_bucket", not_in_basic);
+    if full_at.is_some() && not_in_basic > 0 {
+        r.count("mixed_version/basic_bucket_was_full");
+        r.nontrivial(mix(seed, n_old as u64 * 64 + n_new as u64));
+    } else {
+        r.count("mixed_version/premise-unmet");
+    }
+    w.set_responder(None);
+    drop(x);
+    for (thread, loc, msg) in crate::take_panics() {
+        r.violation(&format!("panic/{loc}"), &format!("thread {thread} panicked: {msg}"), case.clone(), json!({}));
+    }
+}
+
 pub fn run(a: &Args) -> Report {
     let mut r = Report::new("C14");
     if let Some(path) = &a.replay {
@@ -505,6 +700,10 @@ pub fn run(a: &Args) -> Report {
         let c = &v["case"];
         if c["class"] == "late-bootstrap" {
             late_bootstrap_scenario(&mut r, c["seed"].as_str().and_then(|s| s.parse().ok()).unwrap_or(1));
+            return r;
+        }
+        if c["class"] == "mixed-versions" {
+            mixed_versions_scenario(&mut r, c["seed"].as_str().and_then(|s| s.parse().ok()).unwrap_or(1));
             return r;
         }
         if c["class"] == "blackout" {
@@ -523,6 +722,8 @@ pub fn run(a: &Args) -> Report {
         r.count("blackout_scenarios");
         let s = rng.u64();
         super::guarded(&mut r, json!({"class":"late-bootstrap","seed":s.to_string()}), |r| late_bootstrap_scenario(r, s));
+        let s = rng.u64();
+        super::guarded(&mut r, json!({"class":"mixed-versions","seed":s.to_string()}), |r| mixed_versions_scenario(r, s));
     }
     // networks in which buckets fill up (capacity binds): private addresses or BEP42 ids from the start, so
     // that no re-key re-buckets a full table
